@@ -24,6 +24,10 @@ type C13Operand struct {
 	// k="b" with value VB (both small counts).
 	VB   float64 `json:"vb,omitempty"`
 	HasB bool    `json:"has_b,omitempty"`
+	// Sparse mode: the number of records of series a / b in the window of each instant of the
+	// grid (0 = the series is missing from the operand at that instant).
+	SA []int `json:"sa,omitempty"`
+	SB []int `json:"sb,omitempty"`
 }
 
 // C13Chain is operand (op operand)*.
@@ -44,7 +48,17 @@ type C13Case struct {
 	// (the command always does): the operands are constants, so every instant has to give the
 	// value of the conventional reading - whatever an earlier step left behind.
 	Steps int `json:"steps,omitempty"`
+	// Sparse (with Series): the operands change from instant to instant - a series is there at
+	// one and gone at the next - so that an evaluation which lets one side of an operator fall
+	// behind the other shows.
+	Sparse bool `json:"sparse,omitempty"`
 }
+
+// c13LeafHook, when set, gives the value of a vector operand (sparse mode: at one instant, for one series).
+var c13LeafHook func(o C13Operand) optVal
+
+// c13LeafRange is the range of the operands' range aggregation.
+var c13LeafRange = "1m"
 
 // c13Steps is set by the check around its calls (a test binary decides one case at a time).
 var c13Steps int
@@ -74,7 +88,7 @@ func c13OnePoint(text, series string, pts map[int64]float64) (optVal, *evid.Viol
 
 // c13SeriesLeaf is the text of vector operand i in series mode.
 func c13SeriesLeaf(i int) string {
-	return fmt.Sprintf(`sum by (k) (count_over_time({leaf="L%d"}[1m]))`, i)
+	return fmt.Sprintf(`sum by (k) (count_over_time({leaf="L%d"}[%s]))`, i, c13LeafRange)
 }
 
 // seriesText prints the chain in series mode; *idx counts the vector operands.
@@ -252,6 +266,9 @@ func c13ParseFor(c C13Chain, rightAssocAll bool, seriesB bool) *c13Tree {
 			// Parentheses: the value of the sub-tree, kept as a leaf-like unit.
 			return &c13Tree{op: "()", l: sub, r: &c13Tree{}}
 		}
+		if c13LeafHook != nil && !o.Lit {
+			return &c13Tree{leaf: c13LeafHook(o)}
+		}
 		if seriesB && !o.Lit {
 			return &c13Tree{leaf: optVal{ok: o.HasB, v: o.VB}}
 		}
@@ -375,6 +392,114 @@ func c13EvalSeries(text string, recs []model.Rec) (a, b optVal, v *evid.Violatio
 	return a, b, nil
 }
 
+// c13CheckSparse is c13Check for sparse series mode: the conventional reading is evaluated for
+// every instant and series from the operands' values there.
+func c13CheckSparse(c C13Case) (r evid.Result) {
+	c13SeriesMode, c13LeafRange = true, "1s"
+	defer func() { c13SeriesMode, c13LeafRange, c13LeafHook = false, "1m", nil }()
+	const at = int64(1700000000) * 1e9
+	// records: SA[t] (SB[t]) records of operand i half a second before instant t
+	var recs []model.Rec
+	idx := 0
+	var walk func(ch C13Chain)
+	walk = func(ch C13Chain) {
+		for _, o := range ch.Operands {
+			switch {
+			case o.Sub != nil:
+				walk(*o.Sub)
+			case o.Lit:
+			default:
+				for t := 0; t <= c.Steps; t++ {
+					for s, n := range []int{o.SA[t], o.SB[t]} {
+						for j := 0; j < n; j++ {
+							recs = append(recs, model.Rec{TS: at + int64(t)*1e9 - 500e6 - int64(j)*1e6, Line: gen.BS(fmt.Sprintf("L%d %d %d %d", idx, s, t, j)),
+								Labels: model.LabelMap{"leaf": fmt.Sprintf("L%d", idx), "k": []string{"a", "b"}[s]}})
+						}
+					}
+				}
+				idx++
+			}
+		}
+	}
+	walk(c.Chain)
+	sorted := append([]model.Rec(nil), recs...)
+	model.SortRecs(sorted)
+	p := model.Params{Start: at, End: at + int64(c.Steps)*1e9, Step: 1e9, Limit: -1}
+	if c.Steps == 0 {
+		p.Step = 0
+	}
+	levels := map[int]bool{}
+	pow := false
+	nOps := countOps(c.Chain, levels, &pow)
+	r.Class(true, "operands-change-from-instant-to-instant")
+	r.Class(true, fmt.Sprintf("operands=%d", nOps+1))
+	r.NonTrivial = nOps >= 2 && c.Steps >= 1
+	eval := func(text string) (map[string]map[int64]float64, *evid.Violation) {
+		got, _, v, _ := runMetric(sorted, mockstore.Caps{}, false, text, p)
+		if v != nil {
+			v.Sig = "C13/" + v.Sig
+		}
+		return got, v
+	}
+	want := func(rightAssocAll bool) map[string]map[int64]float64 {
+		out := map[string]map[int64]float64{}
+		for t := 0; t <= c.Steps; t++ {
+			for s, k := range []string{"a", "b"} {
+				c13LeafHook = func(o C13Operand) optVal {
+					n := o.SA[t]
+					if s == 1 {
+						n = o.SB[t]
+					}
+					return optVal{ok: n > 0, v: float64(n)}
+				}
+				if v := c13ParseFor(c.Chain, rightAssocAll, false).evalP(); v.ok {
+					key := canon.LabelKey(map[string]string{"k": k})
+					if out[key] == nil {
+						out[key] = map[int64]float64{}
+					}
+					out[key][(at+int64(t)*1e9)/1e6] = v.v
+				}
+			}
+		}
+		c13LeafHook = nil
+		return out
+	}
+	got, v := eval(c.Text)
+	if v != nil {
+		r.Violation = v
+		return r
+	}
+	r.Evals = 1
+	conv := want(false)
+	if diff := canon.DiffPointMaps(got, conv); diff != "" {
+		if canon.DiffPointMaps(got, want(true)) == "" {
+			r.Violation = evid.Viol("C13/equal-precedence-right-assoc", "%s (operands change from instant to instant) follows the right-associative reading: %s", c.Text, diff)
+			return r
+		}
+		r.Violation = evid.Viol("C13/wrong-value", "%s over operands that change from instant to instant (%s) differs from the conventional reading %s: %s", c.Text, c13SparseOperands(c.Chain), c13ParseFor(c.Chain, false, false).shapeP(), diff)
+		return r
+	}
+	return r
+}
+
+func c13SparseOperands(c C13Chain) string {
+	var parts []string
+	var walk func(c C13Chain)
+	walk = func(c C13Chain) {
+		for _, o := range c.Operands {
+			switch {
+			case o.Sub != nil:
+				walk(*o.Sub)
+			case o.Lit:
+			default:
+				parts = append(parts, fmt.Sprintf("L%d{a:%v b:%v}", len(parts), o.SA, o.SB))
+			}
+		}
+	}
+	walk(c)
+	return strings.Join(parts, " ")
+}
+
 // c13CheckSeries is c13Check for series mode: the conventional reading is evaluated series by series.
 func c13CheckSeries(c C13Case) (r evid.Result) {
 	c13SeriesMode = true
@@ -489,6 +614,9 @@ func c13Check(c C13Case) (r evid.Result) {
 	c13Steps = c.Steps
 	defer func() { c13Steps = 0 }()
 	r.Class(c.Steps > 0, "evaluated-over-a-grid")
+	if c.Series && c.Sparse {
+		return c13CheckSparse(c)
+	}
 	if c.Series {
 		return c13CheckSeries(c)
 	}
@@ -698,7 +826,33 @@ func c13Gen(t *rapid.T) C13Case {
 				}
 			}
 		}
+		sparse := rapid.Bool().Draw(t, "operands-change")
+		if sparse {
+			steps = rapid.IntRange(1, 5).Draw(t, "sparse-steps")
+		}
 		set(&chain)
+		if sparse {
+			var fill func(c *C13Chain)
+			fill = func(c *C13Chain) {
+				for i := range c.Operands {
+					o := &c.Operands[i]
+					if o.Sub != nil {
+						fill(o.Sub)
+					} else if !o.Lit {
+						for st := 0; st <= steps; st++ {
+							o.SA = append(o.SA, rapid.SampledFrom([]int{0, 0, 1, 2, 3}).Draw(t, "sparse-a"))
+							o.SB = append(o.SB, rapid.SampledFrom([]int{0, 0, 1, 2}).Draw(t, "sparse-b"))
+						}
+					}
+				}
+			}
+			fill(&chain)
+			c13LeafRange = "1s"
+			idx := 0
+			text := chain.seriesText(&idx)
+			c13LeafRange = "1m"
+			return C13Case{Chain: chain, Text: text, Series: true, Sparse: true, Steps: steps}
+		}
 		idx := 0
 		return C13Case{Chain: chain, Text: chain.seriesText(&idx), Series: true, Steps: steps}
 	}
